@@ -81,10 +81,11 @@ def h_dest(ctx, scenario, code):
     w.witness = x
     cond = {"size_after_eof": CC.FILE_SIZE_ERROR, "size_at_eof": CC.FILE_SIZE_ERROR,
             "checksum_unack": CC.FILE_CHECKSUM_FAILURE, "checksum_ack": CC.FILE_CHECKSUM_FAILURE,
-            "filestore": CC.FILESTORE_REJECTION, "check_limit": CC.CHECK_LIMIT_REACHED,
+            "filestore": CC.FILESTORE_REJECTION, "filestore_late_metadata": CC.FILESTORE_REJECTION, "check_limit": CC.CHECK_LIMIT_REACHED,
             "nak_limit": CC.NAK_LIMIT_REACHED, "ack_limit": CC.POSITIVE_ACK_LIMIT_REACHED}[scenario]
     mode = UNACK if scenario in ("checksum_unack", "check_limit") else (
-        ACK if scenario in ("checksum_ack", "nak_limit", "ack_limit") else ctx.pick("mode", [ACK, UNACK]))
+        ACK if scenario in ("checksum_ack", "nak_limit", "ack_limit", "filestore_late_metadata")
+        else ctx.pick("mode", [ACK, UNACK]))
     closure = bool(ctx.choice("closure", 2))
     limit = ctx.int("limit", 1, 3)
     table = {cond: CODES[code]}
@@ -108,6 +109,13 @@ def h_dest(ctx, scenario, code):
 
     if scenario == "filestore":
         fs.reject = lambda kind, p: PermissionError if kind in ("create", "truncate") else None
+        o = sc.md()
+        return judge(ctx, sc, o, cond, code, tid, later)
+    if scenario == "filestore_late_metadata":
+        # acknowledged: EOF first, deferred procedure running, the re-sent Metadata hits the rejection
+        fs.reject = lambda kind, p: PermissionError if kind in ("create", "truncate") else None
+        ok(sc.eof())
+        ok(sc.tick0())
         o = sc.md()
         return judge(ctx, sc, o, cond, code, tid, later)
     ok(sc.md())
@@ -286,7 +294,7 @@ def extra_checks(tier, seed):
     return [("set_handler_refuses_foreign_conditions", set_handler_refuses)]
 
 
-DEST_SCEN = ["size_after_eof", "size_at_eof", "checksum_unack", "checksum_ack", "filestore", "check_limit",
+DEST_SCEN = ["size_after_eof", "size_at_eof", "checksum_unack", "checksum_ack", "filestore", "filestore_late_metadata", "check_limit",
              "nak_limit", "ack_limit"]
 
 
@@ -296,7 +304,8 @@ def plan(tier):
         for code in CODES:
             cname = {"size_after_eof": "FILE_SIZE_ERROR", "size_at_eof": "FILE_SIZE_ERROR",
                      "checksum_unack": "FILE_CHECKSUM_FAILURE", "checksum_ack": "FILE_CHECKSUM_FAILURE",
-                     "filestore": "FILESTORE_REJECTION", "check_limit": "CHECK_LIMIT_REACHED",
+                     "filestore": "FILESTORE_REJECTION", "filestore_late_metadata": "FILESTORE_REJECTION",
+                     "check_limit": "CHECK_LIMIT_REACHED",
                      "nak_limit": "NAK_LIMIT_REACHED", "ack_limit": "POSITIVE_ACK_LIMIT_REACHED"}[sc]
             specs.append(Spec(f"dest/{sc}/{code}", "vf.harness.c14:h_dest", {"scenario": sc, "code": code},
                               twin_share=0.3, obligations=[f"declared:{cname}:{code}"]))
@@ -314,7 +323,7 @@ def plan(tier):
 
 
 BOUNDS = {
-    "quick": "8 receiver scenarios (file size error after and at EOF, checksum failure unacknowledged/acknowledged, filestore rejection at file creation, check limit, NAK limit, positive ACK limit of the Finished PDU) and 2 sender scenarios (positive ACK limit of the EOF, check limit with closure) x handler code {ignore, cancel, abandon}; plus open receiver runs: one table entry overridden (6 conditions x 3 codes), limits 1, canonical prefix (none / delivered / EOF with missing data) followed by every sequence of N=3 (no prefix) / N=2 events incl. possibly corrupted File Data; file size, limits in [1,3], clock, mode/closure (where free) symbolic; set_handler over all condition x handler code pairs",
+    "quick": "8 receiver scenarios (file size error after and at EOF, checksum failure unacknowledged/acknowledged, filestore rejection at file creation (Metadata first, and Metadata arriving late after the EOF), check limit, NAK limit, positive ACK limit of the Finished PDU) and 2 sender scenarios (positive ACK limit of the EOF, check limit with closure) x handler code {ignore, cancel, abandon}; plus open receiver runs: one table entry overridden (6 conditions x 3 codes), limits 1, canonical prefix (none / delivered / EOF with missing data) followed by every sequence of N=3 (no prefix) / N=2 events incl. possibly corrupted File Data; file size, limits in [1,3], clock, mode/closure (where free) symbolic; set_handler over all condition x handler code pairs",
     "thorough": "same space; adds the cross-solver pass",
 }
 OUTSIDE = "suspension (unimplemented in the library); faults reached from histories other than the scripted scenarios; the cancel request, which the handlers do not route through the fault handler table; faults declared while an EOF(cancel) exchange is in progress (C04)"
